@@ -19,7 +19,7 @@ func init() { register(c02{}) }
 
 func (c02) ID() string { return "C02" }
 func (c02) Rule() string {
-	return "systematic: every location of gen.Universe(L<=6, arity<=3) as the single labelled host feature x every index 0..L x guest length {0,1,3} x {Insert,Embed}; seeded: hosts of length<=60 (BasicSequence and seqio.GenBank) with <=8 uniquely labelled features (joins<=5 parts, nesting<=3, both strands, partial ends, ambiguous spans, sites) and guests with <=3 features. Oracle: residues == host[:i]+guest+host[i:]; every host feature present once with equal key/qualifiers and base atoms == image under the insertion map (Insert: nothing covers a guest residue; Embed: a contiguous part strictly spanning i covers the guest in place), open-end markers map with their residues, sites map to either neighbour; guest features shifted by i; all coordinates within [0,newlen]. non-trivial: some feature is touched by the edit (i <= its high end); distinct: canonical case text."
+	return "systematic: every location of gen.Universe(L<=6, arity<=3) as the single labelled host feature x every index 0..L x guest length {0,1,3} x {Insert,Embed}; seeded: hosts of length<=60 (BasicSequence and seqio.GenBank) with <=8 uniquely labelled features (joins<=5 parts, nesting<=3, both strands, partial ends, ambiguous spans, sites) and guests with <=3 features. Oracle: residues == host[:i]+guest+host[i:]; every host feature present once with equal key/qualifiers and base atoms == image under the insertion map (Insert: nothing covers a guest residue; Embed: a contiguous part strictly spanning i covers the guest in place), open-end markers map with their residues, sites map to either neighbour; guest features shifted by i; all coordinates within [0,newlen]. non-trivial: some feature is touched by the edit (i <= its high end); distinct: canonical case text. CLI layer: gts insert [-e] and gts infix [-e] of the real binary (--no-cache) on generated records, single and as streams of 2..3 records, judged by the C15 models (one guest copy per located region at its 5' position in input coordinates; a stream's output equals the outputs of its records alone)."
 }
 func (c02) RequiredBuckets(tier string) []string {
 	var out []string
